@@ -74,6 +74,9 @@ def check_member(spec, h, evs, partners, args, via_file):
     if scale:
         for f in (0.5, 2, 0):
             trials.append(("r*%s vs h*%s" % (f, f), lambda f=f: (r * f, h * f)))
+    trials.append(("h.toImmutable() vs r", lambda: (h.toImmutable(), r)))
+    trials.append(("r.toImmutable() vs r", lambda: (r.toImmutable(), r)))
+    trials.append(("fromJsonString(h.toJsonString()) vs r", lambda: (hg.Factory.fromJsonString(h.toJsonString()), r)))
     trials.append(("r.zero() vs h.zero()", lambda: (r.zero(), h.zero())))
     trials.append(("r.copy() vs h", lambda: (r.copy(), h)))
     for nm, t in trials:
